@@ -187,10 +187,12 @@ def run_order_shard(args):
     res = Result()
     events = order_events()
     later = [e for e in events if e[0] == "build"] if build_only_tail else events
-    for l in range(1, L + 1):
+    # (the length-3 histories of the thorough tier: the targets whose simplification looks at node ids)
+    targets = ORDER_TARGETS if not build_only_tail else ["F3", "F6", "F9", "F14", "F19"] + [n for n, _ in H.ORDER_TABLE]
+    for l in range(1 if not build_only_tail else 3, L + 1):
         for tail in itertools.product(later, repeat=l - 1):
             hist = (first,) + tail
-            for target in ORDER_TARGETS:
+            for target in targets:
                 res.count("evaluations")
                 res.count("order_cases")
                 bad = run_order(hist, target)
